@@ -1,5 +1,6 @@
 import struct
 import logging
+import re
 import os
 from datetime import datetime
 from enum import Enum
@@ -369,7 +370,7 @@ class TerminalDevice(Device):
                     converted.append((CellType.LONG, v))
                 elif vtype == 3:  # SINGLE
                     try:
-                        v = float(v)
+                        v = parse_float(v)
                     except ValueError:
                         return False
                     if v != v or v in (float('inf'), float('-inf')):
@@ -379,7 +380,7 @@ class TerminalDevice(Device):
                     converted.append((CellType.SINGLE, v))
                 elif vtype == 4:  # DOUBLE
                     try:
-                        v = float(v)
+                        v = parse_float(v)
                     except ValueError:
                         return False
                     if v != v or v in (float('inf'), float('-inf')):
@@ -450,6 +451,17 @@ class PcSpeakerDevice(Device):
         self.impl.pcspkr_sound(freq, duration)
 
 
+def parse_float(s):
+    """Convert the text of a number to a float. The exponent of a
+    DOUBLE is written with a D (PRINT shows 1.5D+20); that form is
+    accepted as well as the E form. Raises ValueError if the text is
+    not a number."""
+    text = s.strip()
+    if re.fullmatch(r'[+-]?(\d+\.?\d*|\.\d+)[dD][+-]?\d+', text):
+        text = text.replace('d', 'e').replace('D', 'e')
+    return float(text)
+
+
 def parse_integral(s):
     """Convert the text of a number to an int the way QBASIC assigns a
     numeric constant to an INTEGER/LONG variable: a numeral with a
@@ -458,7 +470,7 @@ def parse_integral(s):
     try:
         return int(s)
     except ValueError:
-        value = float(s)
+        value = parse_float(s)
         if value != value or value in (float('inf'), float('-inf')):
             raise ValueError(f'Not a finite number: {s}')
         return int(round(value))
@@ -493,10 +505,10 @@ class DataDevice(Device):
                 value = 0 if s == Empty.value else parse_integral(s)
                 self.cpu.push(CellType.LONG, value)
             elif data_type == 3:
-                value = 0.0 if s == Empty.value else float(s)
+                value = 0.0 if s == Empty.value else parse_float(s)
                 self.cpu.push(CellType.SINGLE, value)
             elif data_type == 4:
-                value = 0.0 if s == Empty.value else float(s)
+                value = 0.0 if s == Empty.value else parse_float(s)
                 self.cpu.push(CellType.DOUBLE, value)
             elif data_type == 5:
                 value = '' if s == Empty.value else s
